@@ -462,7 +462,8 @@ func init() {
 	SeqFamilies["C09"] = c09Chunks
 	register(&Family{
 		Property: "C09",
-		Rule: "explicit-state breadth-first search from initial totals {-1,0,1,2,5}: states are reference-model states (total, current, refill, trigger, aborted, completed; values capped at 8), each transition re-creates a real bar on a fresh container by replaying the shortest path and applies one of 25 letters " +
+		Rule: "also: every operation sequence up to length 3 over the full alphabet and up to length 4 over a reduced one (thorough: 4 and 5) WITHOUT merging histories that reach the same reference state; " +
+			"explicit-state breadth-first search from initial totals {-1,0,1,2,5}: states are reference-model states (total, current, refill, trigger, aborted, completed; values capped at 8), each transition re-creates a real bar on a fresh container by replaying the shortest path and applies one of 25 letters " +
 			"{IncrInt64 k (k in -1,0,1,2,5, MaxInt64, MinInt64), SetCurrent k (k in -1,0,1,2,5), SetTotal(t,complete) (t in -1,0,2,5), EnableTriggerComplete, SetRefill r (r in -1,0,1,3), Abort(false/true)} to depth 3 (thorough 14, or until no new state appears); terminal states are not expanded. " +
 			"After every transition Current/Completed/Aborted and the Statistics handed to a probe filler in one manually refreshed frame are compared with the reference written from the documentation. Alias pass (IncrBy, Increment, Ewma*) with and without moving-average decorators; boundary pass with 2^31, 2^62, 2^63-1 restricted to non-overflowing sums. " +
 			"states/transitions are those of the search; every case is also executed on the unmodified package (digest comparison).",
